@@ -315,11 +315,26 @@ def fmt_sprintf(it, st, args, fname):
     f = py_str(args[0])
     va = it.slice_values(st, args[1], 'varargs') if args[1].obj is not None else []
     # a symbolic %d forks on sign and digit count (bounded): handled by expanding alternatives
+    verbs = []
+    k_ = 0
+    while k_ < len(f):
+        if f[k_] == '%':
+            k_ += 1
+            while k_ < len(f) and f[k_] in '0123456789.+-# ':
+                k_ += 1
+            if k_ < len(f) and f[k_] != '%':
+                verbs.append(f[k_])
+        k_ += 1
     for ai_, a_ in enumerate(va):
         v_ = a_.v if isinstance(a_, Iface) else a_
         t_ = a_.t if isinstance(a_, Iface) else None
         if t_ is not None and t_ in E.TYPES and E.ty(t_)['kind'] == 'int' and is_sym(v_):
-            alts = decimal_alternatives(it, st, v_, E.ty(t_))
+            if ai_ < len(verbs) and verbs[ai_] in 'xX':
+                if E.ty(t_).get('signed'):
+                    raise Unsupported('Sprintf %x of a symbolic signed integer')
+                alts = hex_alternatives(it, st, v_, E.ty(t_), verbs[ai_])
+            else:
+                alts = decimal_alternatives(it, st, v_, E.ty(t_))
             res = []
             for cond, val in alts:
                 s2 = st.fork()
@@ -355,7 +370,7 @@ def fmt_sprintf(it, st, args, fname):
         ai += 1
         v = a.v if isinstance(a, Iface) else a
         t = a.t if isinstance(a, Iface) else None
-        if t == '$decimal' and verb in 'dv':
+        if t == '$decimal' and verb in 'dvxX' and spec == '':
             out += list(v.b)
         elif verb in 'sv' and isinstance(v, Str):
             out += list(v.b)
@@ -386,6 +401,27 @@ def fmt_sprintf(it, st, args, fname):
 
 
 MAX_DIGITS = 5
+
+
+def hex_alternatives(it, st, v, tt, verb):
+    """[(condition, digit bytes)] for the %x text of an unsigned symbolic integer: one alternative per
+    digit count (1..bits/4), complete over the whole domain"""
+    bits = tt['bits']
+    nd = (bits + 3) // 4
+    a = (ord('a') if verb == 'x' else ord('A')) - 10
+    alts = []
+    for d in range(1, nd + 1):
+        lo = 0 if d == 1 else 1 << (4 * (d - 1))
+        c = z3.UGE(v, lo)
+        if 4 * d < bits:
+            c = z3.And(c, z3.ULT(v, 1 << (4 * d)))
+        digs = []
+        for i in range(d):
+            sh = 4 * (d - 1 - i)
+            n = z3.ZeroExt(4, z3.Extract(sh + 3, sh, v)) if sh + 3 < bits else z3.ZeroExt(8 - (bits - sh), z3.Extract(bits - 1, sh, v))
+            digs.append(z3.simplify(z3.If(z3.ULT(n, 10), n + ord('0'), n + a)))
+        alts.append((z3.simplify(c), digs))
+    return alts
 
 
 def decimal_alternatives(it, st, v, tt):
